@@ -171,7 +171,10 @@ def generate(tier, rng):
             kind = rng.random()
             if kind < 0.45:
                 vs = [wval(rng, cs, cn, cf) for _ in range(max(size, 1))]
-                if not all(G.in_c01_domain(cn, cf, v) and is_exact_float(v) for v in vs):
+                if rng.random() < 0.06:
+                    # integers at the ends of the 64-bit machine range (any write is a write: the flags must be exact for them too)
+                    vs = [Fraction(rng.choice([-2 ** 63, 2 ** 63 - 1, -2 ** 63 + 1, 2 ** 62, -2 ** 62 - 1])) if rng.random() < 0.7 else Fraction(rng.randint(-3, 3)) for _ in vs]
+                elif not all(G.in_c01_domain(cn, cf, v) and is_exact_float(v) for v in vs):
                     ok = False; break
                 steps.append('%s:%s' % (rng.choice('WS'), tok_list([tok_frac(v) for v in vs])))
             elif kind < 0.6 and size > 0:
